@@ -1295,6 +1295,7 @@ class Engine(object):
                 s_in = self.assign(g.target, (kval, val), s1.assume(*facts))
                 rk = self.ev(node.key, s_in)
                 rv = self.ev(node.value, s_in)
+                self._require_pure(rv, s_in)
                 if (len(rk) == 1 and len(rv) == 1 and not isinstance(rk[0][1], Raised) and not isinstance(rv[0][1], Raised)
                         and is_z3(rk[0][1]) and rk[0][1].eq(kq) and is_scalar(rv[0][1])):
                     newv = rv[0][1]
@@ -1303,6 +1304,14 @@ class Engine(object):
                     return [(s1, MapV(mv.m.key, TInt(), mv.m.dom, [arr]))]
                 raise EngineError("dict comprehension over a symbolic map: only {k: f(k, v) for k, v in items} with scalar values (line %d)" % node.lineno)
         return self.comprehension(node, st, "dict")
+
+    def _require_pure(self, results, before):
+        """the closed-form treatment of sum / any / all / max / min / set / dict over a generator evaluates the element expression
+        once, symbolically: sound only if that evaluation records nothing (no call of an assumed contract in the ghost trace, no
+        warning) - otherwise the generator is outside the subset here"""
+        for s_after, _v in results:
+            if s_after.trace is not before.trace or s_after.ghost.get("_warnings") != before.ghost.get("_warnings"):
+                raise EngineError("generator element with recorded effects inside a closed-form aggregate")
 
     def comprehension(self, node, st, kind):
         saved = dict(st.env)
@@ -1314,8 +1323,10 @@ class Engine(object):
                 if items is not None:
                     vals, conds, ok = [], [], True
                     s1 = r[0][0]
+                    cur = s1          # the state is THREADED through the elements: what evaluating one element records (calls of
+                    #                   assumed contracts in the ghost trace, their assumptions) is there for the next and afterwards
                     for it in items:
-                        s2 = self.assign(g.target, it, s1)
+                        s2 = self.assign(g.target, it, cur)
                         c = True
                         for cnode in g.ifs:
                             rc = self.ev(cnode, s2)
@@ -1323,18 +1334,31 @@ class Engine(object):
                                 ok = False
                                 break
                             c = b_and(c, rc[0][1])
+                            s2 = rc[0][0]
                         if not ok:
                             break
+                        if c is False:
+                            cur = s2
+                            continue
                         re_ = self.ev(node.elt, s2)
                         if len(re_) != 1 or isinstance(re_[0][1], Raised):
                             ok = False
                             break
-                        if c is False:
-                            continue
+                        s3 = re_[0][0]
+                        if c is not True and (s3.trace is not s2.trace or s3.pc != s2.pc or s3.ghost != s2.ghost):
+                            ok = False        # an element with effects under a symbolic condition: the forking path below
+                            break
+                        cur = s3
                         vals.append(re_[0][1])
                         conds.append(c)
                     if ok:
-                        return [(s1, LitSet(vals, conds if any(c is not True for c in conds) else None))]
+                        fin = cur.copy()
+                        for k in list(fin.env):
+                            if k not in saved:
+                                del fin.env[k]
+                        for k, v in saved.items():
+                            fin.env[k] = v
+                        return [(fin, LitSet(vals, conds if any(c is not True for c in conds) else None))]
             if kind == "condset":
                 kind = "list"
         elif kind == "condset":
@@ -1451,6 +1475,7 @@ class Engine(object):
                     def fn(j, sq=sq, s1=s1, eltn=eltn, tgt=tgt):
                         el, _ = seqs.seq_get(sq, j)
                         rb = self.ev(eltn, self.assign(tgt, el, s1))
+                        self._require_pure(rb, s1)
                         if len(rb) != 1 or isinstance(rb[0][1], Raised) or not is_scalar(rb[0][1]):
                             raise EngineError("set(...) over a symbolic sequence: element expression must be a pure scalar")
                         return rb[0][1]
@@ -1483,6 +1508,7 @@ class Engine(object):
                             break
                         c = b_and(c, rc[0][1])
                     re_ = self.ev(node.args[0].elt, s2) if ok else []
+                    self._require_pure(re_, s2)
                     if len(re_) != 1 or isinstance(re_[0][1], Raised) or not is_scalar(re_[0][1]):
                         ok = False
                         break
@@ -1514,6 +1540,7 @@ class Engine(object):
                         break
                     filt.append(ops._tb(truth(rc[0][1])))
                 rb = self.ev(node.args[0].elt, s_in) if ok_f else []
+                self._require_pure(rb, s_in)
                 same = False
                 if len(rb) == 1 and not isinstance(rb[0][1], Raised) and len(self.obligations) == n_obl:
                     ev_ = rb[0][1]
@@ -1558,6 +1585,7 @@ class Engine(object):
                         break
                     filt.append(ops._tb(truth(rc[0][1])))
                 rb = self.ev(node.args[0].elt, s_in) if ok_f else []
+                self._require_pure(rb, s_in)
                 def _int_like(v_):
                     return (is_z3(v_) and z3.is_int(v_)) or (isinstance(v_, int) and not isinstance(v_, bool))
                 if (len(rb) == 1 and not isinstance(rb[0][1], Raised) and len(self.obligations) == n_obl
@@ -1613,6 +1641,7 @@ class Engine(object):
                 s_in = self.assign(g.target, el, s1.assume(z3.Select(mv.m.dom, kq), *facts))
                 n_obl = len(self.obligations)
                 rb = self.ev(node.args[0].elt, s_in)
+                self._require_pure(rb, s_in)
                 if len(rb) == 1 and not isinstance(rb[0][1], Raised) and len(self.obligations) == n_obl and not g.ifs:
                     body = ops._tb(truth(rb[0][1]))
                     rng = z3.And(z3.Select(mv.m.dom, kq), *facts)
@@ -1648,6 +1677,7 @@ class Engine(object):
                         break
                     filt.append(ops._tb(truth(rc[0][1])))
                 rb = self.ev(node.args[0].elt, s_in) if ok_f else []
+                self._require_pure(rb, s_in)
                 if len(rb) == 1 and not isinstance(rb[0][1], Raised) and len(self.obligations) == n_obl:
                     body = ops._tb(truth(rb[0][1]))
                     extra = [f for f in rb[0][0].pc[len(s_in.pc):]] + filt
